@@ -39,7 +39,8 @@ struct Plan {
     std::vector<Stall> stall;
     std::vector<InRep> inrep;
     bool soak = false;
-    std::vector<uint64_t> restart;  // times at which the (tunnel) talker process is killed and started again
+    struct Restart { uint64_t t; bool listener; };
+    std::vector<Restart> restart;   // instants at which the (tunnel) talker or listener process is killed and started again
     std::string mode_str() const;  // e.g. "ntscf,raw,classic"
 };
 
